@@ -235,3 +235,35 @@ def conjunction_of(body):
         if (g2, t2) != (g, t) and not (t2[0] == "const" and t2[1] in ("0", "false")):
             return None
     return out
+
+
+def leaf_role(ctx, anchor, b, what, ret=None, effects=None, key="role"):
+    """A one-step helper must play exactly its role: `ret` is the rendered return term, `effects` the exact list of
+    rendered (unconditional) calls with a `&mut` receiver / stores it performs.  The role (keyed lookup by the argument,
+    append the argument, field view, constructor storing each parameter in its own field) is the helper's whole meaning,
+    so the normalised MIR term is compared, not source text."""
+    ok = True
+    got = {}
+    if ret is not None:
+        r = render(b.return_term())
+        got["ret"] = r[:300]
+        ok = ok and (r == ret if isinstance(ret, str) else r in ret)
+    if effects is not None:
+        true = frozenset([frozenset()])
+        eff = []
+        for bi, t, tm in b.real_calls():
+            if mut_args_of(b, t) or b.guard(bi) != true:
+                eff.append(render(tm)[:200] + ("" if b.guard(bi) == true else " IF " + mir.render_guard(b.guard(bi))[:120]))
+        for bi, si, path, value, s in b.stores():
+            eff.append("%s <- %s" % (render(path), render(value)[:160]) + ("" if b.guard(bi) == true else " IF " + mir.render_guard(b.guard(bi))[:120]))
+        got["effects"] = eff
+        ok = ok and sorted(eff) == sorted(effects)
+    ctx.check(anchor, ok, what, got=got, want={"ret": ret, "effects": effects}, key=key)
+    return ok
+
+
+def mut_args_of(b, t):
+    try:
+        return b.mut_args(t)
+    except Exception:
+        return []
